@@ -124,11 +124,14 @@ func (l *LSTM) Apply(inputs []tensor.Tensor) ([]tensor.Tensor, error) {
 	// Reshape the hidden and cell tensor without the bidirectional dimension, as
 	// we do not support bidirectional yet. This is the dimension at
 	// index 0.
-	if err = Ht.Reshape(Ht.Shape().Clone()[1:]...); err != nil {
+	// The initial states are input tensors (or weights), so they may not be reshaped in place.
+	Ht, err = cloneWithoutFirstDim(Ht)
+	if err != nil {
 		return nil, err
 	}
 
-	if err = Ct.Reshape(Ct.Shape().Clone()[1:]...); err != nil {
+	Ct, err = cloneWithoutFirstDim(Ct)
+	if err != nil {
 		return nil, err
 	}
 
